@@ -86,6 +86,28 @@ def run_level_shard(mod, shard, tier, depth_limit):
     return res
 
 
+def known_witness_states(mod, min_depth=0):
+    """histories of the recorded known findings of mod.PROPERTY (those deeper than min_depth): checked as extra states, so that
+    every listed finding is re-examined (and printed) in every run, whatever the cap or depth of the tier"""
+    import json
+    import os
+
+    from vlib import core
+
+    try:
+        kf = json.load(open(os.path.join(core.ROOT, "known_findings.json")))["findings"]
+    except Exception:
+        return []
+    out = []
+    for f in kf:
+        h = (f.get("witness") or {}).get("history")
+        if f.get("property") == mod.PROPERTY and f.get("kind") == "known" and h and len(h[1]) > min_depth:
+            key = (h[0], tuple(h[1]))
+            if key not in out:
+                out.append(key)
+    return out
+
+
 def drive(mod, tier, starts, depth_limit, max_states=None, nshards=48):
     from vlib import core, mgraph
 
